@@ -66,6 +66,71 @@ pub enum Case {
     /// a response the API hands to the app is serialized (it implements `Serialize`: an app may put
     /// it into its view model or persist it): the bytes must not depend on hash seeds
     ResponseSer { headers: Vec<(String, String)>, body: Vec<u8>, rotate: u8 },
+    /// two values of a protocol type (requests, responses, results, errors, operations): the second
+    /// is the first after `edits` small structural edits (elements of a sequence swapped, duplicated,
+    /// dropped; a leaf changed); `==` must say "equal" exactly when they serialize to the same bytes
+    ProtoEq { container: String, value: wire::V, edits: Vec<(u16, u8)> },
+}
+
+/// the `n`-th sequence / leaf of the value tree, edited in place; returns whether something changed
+fn edit(v: &mut wire::V, target: &mut u16, kind: u8) -> bool {
+    use wire::V;
+    match v {
+        V::Seq(xs) if !xs.is_empty() => {
+            if *target == 0 {
+                let n = xs.len();
+                match kind % 4 {
+                    0 if n >= 2 => xs.swap(0, n - 1),
+                    1 => {
+                        let x = xs[0].clone();
+                        xs.push(x)
+                    }
+                    2 => {
+                        xs.remove(n - 1);
+                    }
+                    _ if n >= 2 => xs.rotate_left(1),
+                    _ => return false,
+                }
+                *target = u16::MAX;
+                return true;
+            }
+            *target -= 1;
+            xs.iter_mut().any(|x| edit(x, target, kind))
+        }
+        V::Str(s) => {
+            if *target == 0 {
+                s.push('x');
+                *target = u16::MAX;
+                return true;
+            }
+            *target -= 1;
+            false
+        }
+        V::Bytes(b) => {
+            if *target == 0 {
+                b.push(0);
+                *target = u16::MAX;
+                return true;
+            }
+            *target -= 1;
+            false
+        }
+        V::U(n) if *target == 0 => {
+            *n ^= 1;
+            *target = u16::MAX;
+            true
+        }
+        V::U(_) => {
+            *target -= 1;
+            false
+        }
+        V::Some(x) => edit(x, target, kind),
+        V::Tuple(xs) => xs.iter_mut().any(|x| edit(x, target, kind)),
+        V::Struct(xs) => xs.iter_mut().any(|(_, x)| edit(x, target, kind)),
+        V::Variant(_, p) => edit(p, target, kind),
+        V::Map(xs) => xs.iter_mut().any(|(_, x)| edit(x, target, kind)),
+        _ => false,
+    }
 }
 
 #[derive(Serialize, Deserialize)]
@@ -333,6 +398,18 @@ pub fn judge(c: &Case) -> Result<(), (String, String)> {
             }
             Ok(())
         }
+        Case::ProtoEq { container, value, edits } => {
+            let mut other = value.clone();
+            for (t, k) in edits {
+                let mut t = *t % 12;
+                edit(&mut other, &mut t, *k);
+            }
+            match crate::c10::eq_vs_bytes(container, value, &other).map_err(|e| ("error".to_string(), e))? {
+                None => Ok(()),
+                Some((ab, ba, same)) if ab == same && ba == same => Ok(()),
+                Some((ab, ba, same)) => Err(("protocol-eq-disagrees-with-contents".into(), format!("{container}: a = {value:?}, b = {other:?}: a == b is {ab}, b == a is {ba}, their serialized bytes are {}", if same { "identical" } else { "different" }))),
+            }
+        }
         Case::ResponseSer { headers, body, rotate } => {
             let mut seen = std::collections::BTreeSet::new();
             let headers: Vec<(String, String)> = headers.iter().filter(|(n, _)| seen.insert(n.to_ascii_lowercase())).cloned().collect();
@@ -433,6 +510,7 @@ pub fn strategy() -> BoxedStrategy<Case> {
         2 => prop::collection::vec(action, 1..14).prop_map(Case::History),
         1 => (headers.clone(), prop::collection::vec(any::<u8>(), 0..6), any::<u8>(), mutation).prop_map(|(headers, body, rotate, mutation)| Case::ResponseEq { headers, body, rotate, mutation }),
         1 => (headers, prop::collection::vec(any::<u8>(), 0..6), any::<u8>()).prop_map(|(headers, body, rotate)| Case::ResponseSer { headers, body, rotate }),
+        2 => proptest::sample::select(crate::c10::EQ_CONTAINERS.to_vec()).prop_flat_map(|c| (crate::c10::value_strategy(c), prop::collection::vec((any::<u16>(), any::<u8>()), 0..3)).prop_map(move |(value, edits)| Case::ProtoEq { container: c.to_string(), value, edits })),
     ]
     .boxed()
 }
@@ -511,6 +589,7 @@ pub fn main(mode: Mode) {
                 }
                 (many || multi || cleared, l)
             }
+            Case::ProtoEq { edits, .. } => (!edits.is_empty(), vec!["kind:protocol-equality", if edits.is_empty() { "pair:identical" } else { "pair:edited" }]),
             Case::ResponseSer { headers, .. } => (headers.len() >= 3, vec!["kind:serialization", if headers.len() >= 3 { "ser:>=3-headers" } else { "ser:<3-headers" }]),
             Case::ResponseEq { headers, mutation, .. } => {
                 let in_headers = matches!(mutation, Mutation::DropHeader(_) | Mutation::AddHeader | Mutation::ChangeValue(_));
@@ -596,7 +675,7 @@ pub fn main(mode: Mode) {
                 Report {
                     prop,
                     tier,
-                    rule: "histories of 1-13 actions (HTTP requests with 0-8 headers and 0-2 multi-valued headers of 2-5 values through the command and the capability API, key-value set/get/list, time now / timers started and cleared - before or after they completed - through both time APIs, renders, answers to outstanding requests in generated order) replayed 3x on fresh threads through the bincode bridge and, for up to 400 of them, in 4 fresh processes; plus pairs of responses built independently from one description (headers inserted in rotated order; optionally one header dropped / added / changed, status or body changed), each pair rebuilt and compared 16x in both directions; plus responses serialized (bincode and JSON) 17x from fresh maps, half of them on fresh threads, which must give identical bytes; non-trivial = a history with an HTTP request carrying >= 3 distinct header names or a multi-valued header, or with a timer that is started and a clear, or an equality pair that is equal by construction with >= 3 headers or differs only in headers; distinct = distinct case",
+                    rule: "histories of 1-13 actions (HTTP requests with 0-8 headers and 0-2 multi-valued headers of 2-5 values through the command and the capability API, key-value set/get/list, time now / timers started and cleared - before or after they completed - through both time APIs, renders, answers to outstanding requests in generated order) replayed 3x on fresh threads through the bincode bridge and, for up to 400 of them, in 4 fresh processes; plus pairs of responses built independently from one description (headers inserted in rotated order; optionally one header dropped / added / changed, status or body changed), each pair rebuilt and compared 16x in both directions; plus responses serialized (bincode and JSON) 17x from fresh maps, half of them on fresh threads, which must give identical bytes; plus pairs of protocol values (HTTP request / response / result / error / header, key-value operation / response / result / error / value, time request / response / instant / duration, platform response, render operation) generated from the schema, the second being the first after 0-2 structural edits (sequence elements swapped, rotated, duplicated, dropped; a string, byte buffer or number changed), for which == in both directions must agree with equality of their serialized bytes; non-trivial = a history with an HTTP request carrying >= 3 distinct header names or a multi-valued header, or with a timer that is started and a clear, or an equality pair that is equal by construction with >= 3 headers or differs only in headers; distinct = distinct case",
                     assumptions: vec![
                         "timer ids are renamed by first occurrence before comparing (the statement leaves their numbering open)".into(),
                         "fresh threads and fresh processes have different hash seeds (std RandomState)".into(),
